@@ -165,6 +165,13 @@ func (e *Env) Copy() *Env {
 	if e.values != nil {
 		copy.values = make(map[string]reflect.Value, len(e.values))
 		for name, value := range e.values {
+			if value.CanAddr() {
+				// an addressable value is a cell: the copy gets its own, so that a store through a
+				// pointer to it (Addr, &name in a script) on one side does not show on the other
+				own := reflect.New(value.Type()).Elem()
+				own.Set(value)
+				value = own
+			}
 			copy.values[name] = value
 		}
 	}
